@@ -29,8 +29,8 @@ SendsBad(c) == Len(ob'[c].csent) > Len(ob[c].csent) /\ ob'[c].csent[Len(ob'[c].c
 BadOnlyAfterTargetFin == \A c \in Conns : SendsBad(c) => Has(ob[c].clog, 0)
 \* containment scenarios: connection 2 arrives only after connection 1 has been dialled (where the harness injects a fault)
 SecondAfterFirstDial == (2 \in Conns /\ 1 \in Conns) => ((st'[2].pc # "idle" /\ st[2].pc = "idle") => ob[1].dials > 0)
-\* ... and the listener is closed only when every connection has been accepted
-Containment == SecondAfterFirstDial /\ ((lst' = "closed" /\ lst = "open") => \A c \in Conns : st[c].pc \notin {"idle", "backlog"})
+\* ... and the listener is closed only when every connection has been served
+Containment == SecondAfterFirstDial /\ ((lst' = "closed" /\ lst = "open") => \A c \in Conns : st[c].pc = "done")
 \* the target speaks only after the handshake deadline of the connection has long passed (the relay outlives it)
 TargetSendsLate == \A c \in Conns : ob'[c].tsent > ob[c].tsent => now > ob[c].acceptAt + Timeout
 \* and the client does not end the connection before the target has spoken
